@@ -96,13 +96,16 @@ func checkC15(r *Run) propMeta {
 		} else {
 			name = "ReachabilityCache.cachedComponentReach"
 		}
+		// the switch over the direction, in the function itself or in a selector helper it calls
 		var sw *ast.SwitchStmt
-		ast.Inspect(fd.Body, func(n ast.Node) bool {
-			if s, ok := n.(*ast.SwitchStmt); ok && sw == nil {
-				sw = s
-			}
-			return true
-		})
+		for _, body := range bodyWithHelpers(p, fd) {
+			ast.Inspect(body, func(n ast.Node) bool {
+				if s, ok := n.(*ast.SwitchStmt); ok && sw == nil {
+					sw = s
+				}
+				return true
+			})
+		}
 		if sw == nil {
 			r.Undecide("C15-R4: %s has no switch over the direction", name)
 			continue
